@@ -333,9 +333,34 @@ pub struct OptSet {
     pub prune_empty: u8,
     pub prune_degenerate: u8,
     pub no_ff: bool,
+    /// a `commit-map` lying in the debug directory from an earlier run (stream-level runs only): turns on the old-id translator
+    pub prior_map: Option<Vec<u8>>,
 }
 
 impl OptSet {
+    /// a commit-map of an imagined earlier run whose old ids are the ones the generated messages cite (in full or abbreviated)
+    pub fn gen_prior_map(rng: &mut Rng) -> Vec<u8> {
+        let hex = |rng: &mut Rng, n: usize| -> Vec<u8> { (0..n).map(|_| *rng.pick(b"0123456789abcdef")).collect() };
+        let mut lines: Vec<Vec<u8>> = Vec::new();
+        let cited_full = b"0123456789abcdef0123456789abcdef01234567".to_vec();
+        let mut cited_short = b"deadbeef1234".to_vec();
+        cited_short.extend_from_slice(&hex(rng, 28));
+        let push = |rng: &mut Rng, old: Vec<u8>, lines: &mut Vec<Vec<u8>>| {
+            let new = match rng.below(6) { 0 => old.clone(), 1 => vec![b'0'; 40], _ => hex(rng, 40) };
+            let o = if rng.chance(1, 4) { old.to_ascii_uppercase() } else { old };
+            lines.push([&o[..], b" ", &new[..]].concat());
+        };
+        if rng.chance(4, 5) { push(rng, cited_full, &mut lines); }
+        if rng.chance(4, 5) { push(rng, cited_short, &mut lines); }
+        if rng.chance(1, 5) { let mut other = b"deadbeef1234".to_vec(); other.extend_from_slice(&hex(rng, 28)); push(rng, other, &mut lines); }
+        if rng.chance(1, 4) { let mut other = b"aabb".to_vec(); other.extend_from_slice(&hex(rng, 36)); push(rng, other, &mut lines); }
+        for _ in 0..rng.below(3) { let o = hex(rng, 40); push(rng, o, &mut lines); }
+        if rng.chance(1, 10) { lines.push(Vec::new()); }
+        let mut c = lines.join(&b"\n"[..]);
+        if !lines.is_empty() { c.push(b'\n'); }
+        c
+    }
+
     pub fn generate(rng: &mut Rng, h: &History) -> OptSet {
         let mut o = OptSet { prune_empty: 1, prune_degenerate: 1, ..Default::default() };
         let paths = h.all_paths();
